@@ -247,7 +247,11 @@ func (p *Path) branch(c *smt.Term) bool {
 	}
 	p.pos++
 	rt := p.S.CheckWith(c)
-	rf := p.S.CheckWith(smt.Not(c))
+	rf := smt.Sat
+	if rt != smt.Unsat {
+		// (when c is infeasible the path itself is feasible only through ¬c)
+		rf = p.S.CheckWith(smt.Not(c))
+	}
 	if rt == smt.Unknown || rf == smt.Unknown {
 		p.res.Unknown++
 	}
@@ -510,7 +514,7 @@ func (e *Engine) RunPath(s *smt.Solver, st *Stats, t Task) (res PathResult, work
 		}
 	}
 	p.initMode = false
-	p.entered = e.markEntered(t.Fn)
+	p.entered = false
 	p.exec(t.Fn, nil, nil, nil)
 	return
 }
